@@ -86,7 +86,100 @@ def run(ctx):
     for c, x in list(zip(cases, res))[:2]:
         ctx.sample({"entry": c["entry"], "m1": c["m1"], "m2": c["m2"], "expect": c["expect"], "css": x.get("css")})
     os.remove(tpath)
+    builtins(ctx)
+    cycles(ctx)
     ctx.assumptions += [
-        "three-file projects (entry, m1, m2) with one probe each; deeper graphs and cycles are not generated",
+        "decorated edges: three-file projects (entry, m1, m2) with one probe each; load-once/cycles: four-file graphs with plain @use/@forward edges",
+        "built-in modules: the functions of the table in Builtins.tla (math, color, selector, meta; list/map/string spellings are C14's)",
         "left open (not generated): pass-through configuration of an already loaded module; show/hide list + prefix + pass-through configuration",
     ]
+
+
+def builtins(ctx):
+    """Last clause of C12: a built-in module's function behaves like its global alias; misuse of a built-in module is an error."""
+    r = C.tlc("MC_Builtins", cfg_text="SPECIFICATION Spec\nINVARIANTS TableOk Emit\nCHECK_DEADLOCK FALSE\n", workers=4, timeout=1200)
+    C.tlc_must_pass(r, "MC_Builtins")
+    ctx.add_tlc(r)
+    cases = r.cases
+    jm, jg = [], []
+    for i, c in enumerate(cases):
+        if c["kind"] == "alias":
+            jm.append({"id": i, "src": "\n".join(c["viamodule"]) + "\n"})
+            jg.append({"id": i, "src": "\n".join(c["viaglobal"]) + "\n"})
+        else:
+            jm.append({"id": i, "src": "\n".join(c["sheet"]) + "\n"})
+            jg.append({"id": i, "src": "a { r: 1; }\n"})
+    rm = C.run_cases(jm, PID + "-bm")
+    rg = C.run_cases(jg, PID + "-bg")
+    nok = 0
+    for c, j, g, xm, xg in zip(cases, jm, jg, rm, rg):
+        ctx.count(["builtin", c.get("mod"), c.get("member"), c["use"], j["src"]])
+        om, og = xm.get("outcome"), xg.get("outcome")
+        if om not in ("css", "error"):
+            ctx.violation("compilation ended with %s (%s)" % (om, xm.get("panic")), {"src": j["src"], "observed": xm})
+            continue
+        if c["kind"] == "misuse":
+            if om != "error":
+                ctx.violation("misuse of a built-in module (%s) compiled" % c["use"], {"src": j["src"], "css": xm.get("css"), "spec": "Builtins.Misuses"})
+            else:
+                ctx.validated += 1
+            continue
+        if og not in ("css", "error"):
+            continue
+        if om != og or (om == "css" and xm["css"] != xg["css"]):
+            ctx.violation("%s.%s and its global alias %s disagree" % (c["mod"], c["member"], c["alias"]),
+                          {"src": j["src"], "global": g["src"], "observed": {"module": xm.get("css") or (xm.get("err") or {}).get("message"),
+                                                                             "global": xg.get("css") or (xg.get("err") or {}).get("message")},
+                           "spec": "Builtins.Functions"})
+        else:
+            ctx.validated += 1
+            nok += om == "css"
+    ctx.extra["builtin_cases"] = len(cases)
+    ctx.extra["builtin_alias_pairs_with_css"] = nok
+
+
+def cycles(ctx):
+    """Load-once, evaluation order and cycle detection over graphs of three library files."""
+    me = 3 if ctx.tier == "quick" else 4
+    r = C.tlc("MC_Cycles", cfg_text="SPECIFICATION Spec\nCONSTANTS MaxEdges = %d\nINVARIANTS SelfLoopIsCycle Emit\nCHECK_DEADLOCK FALSE\n" % me,
+              workers=6, timeout=1800)
+    C.tlc_must_pass(r, "MC_Cycles")
+    ctx.add_tlc(r)
+    cases = r.cases
+    if len(cases) > 20000:
+        import random
+        cases = random.Random(ctx.seed).sample(cases, 20000)
+    jobs = [{"id": i, "src": "\n".join(c["entry"]) + "\n",
+             "files": {"_%s.scss" % m: "\n".join(c[m]) + "\n" for m in ("m1", "m2", "m3")}} for i, c in enumerate(cases)]
+    res = C.run_cases(jobs, PID + "-cyc")
+    ncyc = 0
+    for c, j, x in zip(cases, jobs, res):
+        ctx.count(["graph", c["entry"], c["m1"], c["m2"], c["m3"]])
+        oc = x.get("outcome")
+        rep = {"job": j, "cyclic": c["cyclic"], "reachable": c["reachable"], "observed": {k: x.get(k) for k in ("outcome", "css", "err", "panic")},
+               "spec": "MC_Cycles.Cyclic/Before"}
+        if oc not in ("css", "error"):
+            ctx.violation("compilation of a module graph ended with %s" % oc, rep)
+            continue
+        if c["cyclic"]:
+            ncyc += 1
+            if oc != "error":
+                ctx.violation("a module cycle reachable from the entry was not reported as an error", rep)
+            else:
+                ctx.validated += 1
+            continue
+        if oc == "error":
+            ctx.violation("an acyclic module graph failed: %s" % (x.get("err") or {}).get("message"), rep)
+            continue
+        order = [sel for _, sel, ds in cssread.flatten(cssread.parse(x["css"])) if ds]
+        want = sorted("." + m for m in c["reachable"]) + [".entry"]
+        if sorted(order) != sorted(want):
+            ctx.violation("markers emitted %s, expected each of %s exactly once" % (order, want), rep)
+            continue
+        bad = [(a, b) for a, b in c["before"] if b != "entry" and order.index("." + a) > order.index("." + b)]
+        if bad or order[-1] != ".entry":
+            ctx.violation("a module's CSS was emitted before the CSS of a module it loads: %s in %s" % (bad, order), rep)
+            continue
+        ctx.validated += 1
+    ctx.extra["graphs"] = len(cases)
+    ctx.extra["graphs_with_reachable_cycle"] = ncyc
